@@ -47,10 +47,10 @@ POOL = [
     ('2.0', "xs:boolean('1')"), ('2.0', "xs:string('s')"), ('2.0', "xs:NCName('n')"), ('2.0', "xs:language('en')"),
     ('2.0', "xs:int('2147483648')"), ('2.0', "xs:date('2001-02-30')"), ('2.0', "xs:dateTime('x')"),
     ('3.0', 'abs#1'), ('3.0', 'function($x) { $x }'), ('3.0', 'concat#3'), ('3.0', 'function() { 1 }'),
-    ('3.0', 'function($x, $y) { $x + $y }'), ('3.0', 'fn:nothing#1'), ('3.0', 'string#0'), ('3.0', '$f'),
+    ('3.0', 'function($x, $y) { $x + $y }'), ('3.0', 'fn:nothing#1'), ('3.0', 'string#0'), ('3.0', '$fn1'),
     ('3.0', 'function($x as xs:integer) as xs:string { $x }'), ('3.0', 'position#0'),
     ('3.1', 'map{}'), ('3.1', "map{'a': 1}"), ('3.1', "map{1: 'x', 'k': (1, 2)}"), ('3.1', '[1, 2]'),
-    ('3.1', '[]'), ('3.1', 'array{}'), ('3.1', '[(1, 2), []]'), ('3.1', '$m'), ('3.1', '$arr'),
+    ('3.1', '[]'), ('3.1', 'array{}'), ('3.1', '[(1, 2), []]'), ('3.1', '$map1'), ('3.1', '$arr1'),
     ('3.1', "map{xs:double('NaN'): 1}"), ('3.1', "[map{'a': [1]}]"), ('3.1', 'array:size#1'),
     ('3.1', "map{'method': 'json'}"), ('3.1', "map{'liberal': true()}"), ('3.1', "map{'duplicates': 'x'}"),
 ]
@@ -107,7 +107,7 @@ KNOWN_NASTIES = [
     'some', 'every $x in 1 satisfies', 'instance of', '1 instance of', '1 cast as', '1 castable as xs:', '1 treat as',
     'map', 'map{', 'map{1', 'map{1:', 'array', 'array{', '[', '[1', '?', '?1', '1?1', '?*', '.?', '=>', '1 =>', '1 => $',
     'function', 'function(', 'function($', 'function($x', 'function($x)', 'function($x){', 'function($x, $x){1}',
-    'abs#', 'abs#1#1', '#1', 'abs#-1', 'abs#99999999999999999999', 'abs#1.5', '1(', '1()', '()()', '$f()', '.()',
+    'abs#', 'abs#1#1', '#1', 'abs#-1', 'abs#99999999999999999999', 'abs#1.5', '1(', '1()', '()()', '$fn1()', '.()',
     '``[', '``[ `{1}` ]``', '1 ! ', '! 1', '||', "'a' ||", 'x:', ':x', 'x:y:z', 'x: y', 'x :y', '*:', ':*', '*:*', 'p:*:a',
     'xs:int(', 'xs:int()', 'xs:int(1,2)', 'xs:nothing(1)', 'xs:QName(1)', "xs:NOTATION('a')", 'xs:anyAtomicType(1)',
     'fn:', 'fn:abs', 'fn:abs(', 'fn:nothing()', 'math:pi(1)', 'map:get()', 'array:get([1], 0)', 'array:get([1], 2)',
